@@ -30,8 +30,8 @@ ASSUMPTIONS = [
 ]
 ALL_TYPES = sorted(set(ALL_IN_TYPES) | {f"OUT:{t}" for t in OUT_TYPES} | {"MOVE:fee", "MOVE:no-fee", "MOVE:self"})
 SETTINGS: Dict[str, Dict[str, Any]] = {
-    "quick": {"cases": 3000, "cli_cases": 64, "budget_s": 45, "minimums": {"events_checked": 8000, "nontrivial": 500, "cli_runs": 6}, "required_tags": {"tag_types": ALL_TYPES}},
-    "thorough": {"cases": 100000, "cli_cases": 200, "budget_s": 300, "minimums": {"events_checked": 300000, "nontrivial": 20000, "cli_runs": 100}, "required_tags": {"tag_types": ALL_TYPES}},
+    "quick": {"cases": 3000, "cli_cases": 64, "budget_s": 45, "minimums": {"corpus_runs": 100, "events_checked": 8000, "nontrivial": 500, "cli_runs": 6}, "required_tags": {"tag_types": ALL_TYPES}},
+    "thorough": {"cases": 100000, "cli_cases": 200, "budget_s": 300, "minimums": {"corpus_runs": 100, "events_checked": 300000, "nontrivial": 20000, "cli_runs": 100}, "required_tags": {"tag_types": ALL_TYPES}},
 }
 
 PROFILES = [
@@ -92,6 +92,9 @@ def kf4_reproducer() -> Dict[str, Any]:
 
 
 def run_shard(ctx: Any) -> None:
+    from rpv.checks import corpus_slice
+
+    corpus_slice.run(ctx, PROPERTY_ID)  # the repository's own example inputs, every method and the config's schedule
     ip = get_ip(ctx)
     settings = SETTINGS[ctx.tier]
     share = ctx.share(settings["cases"])
@@ -121,6 +124,11 @@ def run_shard(ctx: Any) -> None:
 
 
 def replay(ctx: Any, case: Dict[str, Any]) -> None:
+    if case.get("corpus"):
+        from rpv.checks import corpus_slice
+
+        corpus_slice.replay(ctx, PROPERTY_ID, case)
+        return
     if case.get("cli"):
         from rpv.checks import cli_slices
 
